@@ -22,9 +22,10 @@ LEVEL_TEXT = ('static analysis: (D1) a kind system for index values (family LABE
               ' 3-bin gene: start = first start, end = last end, probes = number of bins, weight = sum, depth = weight-averaged, log2 = weight-'
               'averaged log2 (plain mean when all weights are 0), gene name set; gene_metrics_by_gene keeps a gene <=> |log2| >= threshold; '
               "gene_metrics_by_segment overwrites log2 with the segment's and filters on the segment's |log2|; squash_genes.squash_rows gives "
-              'first start / last end / summed probes; (D3) get_breakpoints reports a gene <=> first start < segment end < gene end and both side'
-              ' counts >= min_probes, counted by start < end / start >= end, only between segments of one chromosome, also when the next segment '
-              "starts after a gap. Does not decide behaviour on interleaved genes (outside the property's premise).")
+              'first start / last end / summed probes; (D3a) get_gene_intervals on literal bins gives each gene its sorted bin starts and the '
+              'furthest bin end (nested bins, rows listed far-to-near); (D3) get_breakpoints reports a gene <=> first start < segment end < gene '
+              'end and both side counts >= min_probes, counted by start < end / start >= end, only between segments of one chromosome, also when '
+              "the next segment starts after a gap. Does not decide behaviour on interleaved genes (outside the property's premise).")
 TECHNIQUE = ("index-kind type system over one function's def-use chains; bounded exhaustive interpretation of by_gene on literal tables with "
              'literal index labels; abstract interpretation of the summary functions on symbolic rows')
 
